@@ -54,13 +54,15 @@ func runC05(c *Ctx) {
 
 var pawnOrCapture = map[string]bool{"Push": true, "Jump": true, "EnPassant": true, "Capture": true, "Promotion": true, "CapturePromotion": true}
 
-func c05Clock(c *Ctx, g *gameModel) {
+func c05Clock(c *Ctx, g *gameModel) { c05ClockRule(c, g, "R05-clock") }
+
+func c05ClockRule(c *Ctx, g *gameModel, rule string) {
 	r := c.R
 	fn := g.updNP
 	where := c.pos(fn.Pos())
 	in := newInterp(c.P)
 	if fn.Signature.Params().Len() != 2 {
-		r.Undecided("R05-clock", "clock update signature", where, "", "expected (old int, m Move)")
+		r.Undecided(rule, "clock update signature", where, "", "expected (old int, m Move)")
 		return
 	}
 	for _, kind := range []string{"Normal", "Push", "Jump", "EnPassant", "QueenSideCastle", "KingSideCastle", "Capture", "Promotion", "CapturePromotion"} {
@@ -92,19 +94,19 @@ func c05Clock(c *Ctx, g *gameModel) {
 			}
 		}
 		if und != "" {
-			r.Undecided("R05-clock", cons, where, kind, und)
+			r.Undecided(rule, cons, where, kind, und)
 			continue
 		}
 		what := "must count on (neither a pawn move nor a capture)"
 		if pawnOrCapture[kind] {
 			what = "must reset the clock (pawn move or capture)"
 		}
-		r.Check(good, "R05-clock", cons, where, kind, fmt.Sprintf("clock after a %s move is %s; a %s move %s", kind, got, kind, what))
+		r.Check(good, rule, cons, where, kind, fmt.Sprintf("clock after a %s move is %s; a %s move %s", kind, got, kind, what))
 	}
 	// the first node's clock
 	newBoard := c.P.Func("pkg/board", "", "NewBoard")
 	if newBoard == nil {
-		r.Undecided("R05-clock", "anchor:NewBoard", "", "", "constructor not found")
+		r.Undecided(rule, "anchor:NewBoard", "", "", "constructor not found")
 		return
 	}
 	found := false
@@ -113,11 +115,11 @@ func c05Clock(c *Ctx, g *gameModel) {
 			found = true
 			st := fs.Instr.(*ssa.Store)
 			prm, isParam := st.Val.(*ssa.Parameter)
-			r.Check(isParam && types.Identical(prm.Type(), types.Typ[types.Int]) && strings.Contains(strings.ToLower(prm.Name()), "progress"), "R05-clock", "board.NewBoard carries the given clock into the first node", c.pos(fs.Pos), "", "node.noprogress := "+pathExpr(st.Val))
+			r.Check(isParam && types.Identical(prm.Type(), types.Typ[types.Int]) && strings.Contains(strings.ToLower(prm.Name()), "progress"), rule, "board.NewBoard carries the given clock into the first node", c.pos(fs.Pos), "", "node.noprogress := "+pathExpr(st.Val))
 		}
 	}
 	if !found {
-		r.Fail("R05-clock", "board.NewBoard carries the given clock into the first node", c.pos(newBoard.Pos()), "", "no store to node.noprogress in the constructor")
+		r.Fail(rule, "board.NewBoard carries the given clock into the first node", c.pos(newBoard.Pos()), "", "no store to node.noprogress in the constructor")
 	}
 }
 
